@@ -51,8 +51,26 @@ def strategy(tier):
             "hashseed": st.sampled_from(seeds),
         }
     )
+    def hash_equal_pair(pair):
+        """In a share of the cases two categorical features are turned into a bool-valued and a 0.0/1.0-valued
+        column: values that compare and hash equal across features (True == 1.0) expose state shared between
+        features."""
+        case, flag = pair
+        cats = [f for f in case["features"] if f["kind"] == "categorical"]
+        if flag and len(cats) >= 2:
+            for f, values, flavour in ((cats[0], [True, False], "bools"), (cats[1], [0.0, 1.0], "flags")):
+                for key in ("train", "dev"):
+                    if f.get(key):
+                        f[key] = [[row[0], sum(row[1:-1]), row[-1]] for row in f[key]]
+                f["values"], f["flavour"], f["twins"] = values, flavour, []
+                f.pop("pinned", None)
+        return case
+
     return st.tuples(
-        fitted_case(CLASSES, min_features=2, max_features=5, dev_modes=("none", "none", "same"), cat_flavours=WITH_BOOLS),
+        st.tuples(
+            fitted_case(CLASSES, min_features=2, max_features=5, dev_modes=("none", "none", "same"), cat_flavours=WITH_BOOLS),
+            st.integers(0, 2).map(lambda v: v == 0),
+        ).map(hash_equal_pair),
         st.lists(variant, min_size=4, max_size=7),
     ).map(lambda t: dict(t[0], variants=t[1]))
 
